@@ -396,6 +396,29 @@ class Gen:
         self.count("services_leave")
         return True
 
+    def oper_invite(self):
+        """an IRC operator acts on a channel it is not a member of (INVITE into an invite-only channel, TOPIC, KICK,
+        MODE, NAMES): member look-ups of a non-member"""
+        r = self.rng
+        opers = [sid for sid, x in self.sessions.items() if x.get("oper") and x.get("registered")]
+        regs = [sid for sid, x in self.sessions.items() if x.get("registered") and not x.get("server") and x.get("nick")]
+        if not opers or len(regs) < 3:
+            return False
+        o = r.choice(opers)
+        others = [x for x in regs if x != o]
+        a, b = r.sample(others, 2)
+        ch = "#oi%d" % r.randrange(3)
+        self.line(a, "JOIN " + ch)
+        self.line(a, "MODE %s %s" % (ch, r.choice(["+i", "+i", "+it", "+s", "+k k1"])))
+        self.line(o, "PART " + ch)
+        for t in r.sample(["INVITE %s %s" % (self.sessions[b]["nick"], ch), "TOPIC %s :by oper" % ch, "KICK %s %s" % (ch, self.sessions[a]["nick"]),
+                           "MODE %s +o %s" % (ch, self.sessions[b]["nick"]), "NAMES " + ch, "MODE %s -i" % ch, "PRIVMSG %s :oper here" % ch], 3):
+            self.line(o, t)
+        self.line(b, "JOIN " + ch)
+        self.ops.append("D")
+        self.count("oper_invite")
+        return True
+
     def half_registered(self):
         """a session that only sent NICK (or only USER) ends — by QUIT, DELETE or KILL — and somebody else then
         wants its nickname"""
@@ -584,6 +607,7 @@ class Gen:
         self.line(sid, "USER %s 0 * :%s" % (self.rng.choice(["u", "blah", "u", "blah", "u" * 600, "ü" * 31, "a" * 30, "b" * 31, "x😀" * 200]), "Real " + nick))
         self.sessions[sid]["registered"] = True
         self.sessions[sid]["nick"] = nick
+        self.sessions[sid]["oper"] = oper
         if nick and nick not in self.used_nicks:
             self.used_nicks.append(nick)
 
@@ -663,6 +687,8 @@ class Gen:
             elif x < 0.575 and self.multi_join():
                 pass
             elif x < 0.595 and self.services_leave():
+                pass
+            elif x < 0.61 and self.oper_invite():
                 pass
             else:
                 self.client_line(r.choice(live))
